@@ -3,8 +3,14 @@ package main
 import (
 	"bytes"
 	"fmt"
+	"go/ast"
+	"go/parser"
+	"go/token"
 	"math/rand"
+	"os"
+	"path/filepath"
 	"regexp"
+	"runtime/debug"
 	"sort"
 	"strconv"
 	"strings"
@@ -288,6 +294,195 @@ func checkEvent(c *lib.Ctx, id string, o obs, ts uint64, n int, input any) {
 	}
 }
 
+// ---------------------------------------------------------------- constants of the source
+
+// srcConsts are the literal operands of CreateEmsgAhead, read from the source file of the tree under
+// test (constgen does not emit them): splice offsets per perMinute value, ad duration per value,
+// announce lead, seconds per minute, PTS clock and PTS modulus exponent.
+type srcConsts struct {
+	Offsets  map[int][]int64
+	AdDur    map[int]int64 // 0 = default (no case assigns it)
+	AdDurDef int64
+	Lead     int64
+	Minute   int64
+	Clock    int64
+	PtsBits  int64
+	Problems []string
+}
+
+func repoRoot() string {
+	if r := os.Getenv("VERIF_REPO"); r != "" {
+		return r
+	}
+	return "/repo"
+}
+
+func intLit(e ast.Expr) (int64, bool) {
+	if b, ok := e.(*ast.BasicLit); ok && b.Kind == token.INT {
+		v, err := strconv.ParseInt(strings.ReplaceAll(b.Value, "_", ""), 0, 64)
+		return v, err == nil
+	}
+	return 0, false
+}
+
+// timesTimescale matches `N * timescale` and returns N.
+func timesTimescale(e ast.Expr) (int64, bool) {
+	if p, ok := e.(*ast.ParenExpr); ok {
+		e = p.X
+	}
+	b, ok := e.(*ast.BinaryExpr)
+	if !ok || b.Op != token.MUL {
+		return 0, false
+	}
+	if id, ok := b.Y.(*ast.Ident); ok && id.Name == "timescale" {
+		return intLit(b.X)
+	}
+	return 0, false
+}
+
+func readSrcConsts() srcConsts {
+	sc := srcConsts{Offsets: map[int][]int64{}, AdDur: map[int]int64{}}
+	bad := func(f string, a ...any) { sc.Problems = append(sc.Problems, fmt.Sprintf(f, a...)) }
+	path := filepath.Join(repoRoot(), "pkg", "scte35", "scte35.go")
+	fset := token.NewFileSet()
+	file, err := parser.ParseFile(fset, path, nil, 0)
+	if err != nil {
+		bad("%v", err)
+		return sc
+	}
+	var fn *ast.FuncDecl
+	for _, d := range file.Decls {
+		if f, ok := d.(*ast.FuncDecl); ok && f.Name.Name == "CreateEmsgAhead" {
+			fn = f
+		}
+	}
+	if fn == nil {
+		bad("CreateEmsgAhead not found in %s", path)
+		return sc
+	}
+	ast.Inspect(fn.Body, func(n ast.Node) bool {
+		switch x := n.(type) {
+		case *ast.AssignStmt:
+			if len(x.Lhs) != 1 || len(x.Rhs) != 1 {
+				return true
+			}
+			lhs, _ := x.Lhs[0].(*ast.Ident)
+			if lhs == nil {
+				return true
+			}
+			switch lhs.Name {
+			case "adDuration":
+				if x.Tok == token.DEFINE {
+					if v, ok := timesTimescale(x.Rhs[0]); ok {
+						sc.AdDurDef = v
+					} else {
+						bad("adDuration := is not N*timescale")
+					}
+				}
+			case "announceTime":
+				if b, ok := x.Rhs[0].(*ast.BinaryExpr); ok && b.Op == token.SUB {
+					if v, ok := timesTimescale(b.Y); ok {
+						sc.Lead = v
+					}
+				}
+			case "modMinute":
+				if b, ok := x.Rhs[0].(*ast.BinaryExpr); ok && b.Op == token.REM {
+					if v, ok := timesTimescale(b.Y); ok {
+						sc.Minute = v
+					}
+				}
+			}
+		case *ast.CaseClause:
+			if len(x.List) != 1 {
+				return true
+			}
+			k, ok := intLit(x.List[0])
+			if !ok {
+				return true
+			}
+			for _, st := range x.Body {
+				as, ok := st.(*ast.AssignStmt)
+				if !ok || len(as.Lhs) != 1 || len(as.Rhs) != 1 {
+					continue
+				}
+				lhs, _ := as.Lhs[0].(*ast.Ident)
+				if lhs == nil {
+					continue
+				}
+				if lhs.Name == "adDuration" {
+					if v, ok := timesTimescale(as.Rhs[0]); ok {
+						sc.AdDur[int(k)] = v
+					} else {
+						bad("case %d: adDuration is not N*timescale", k)
+					}
+				}
+				if lhs.Name == "spliceInsertTimes" {
+					cl, ok := as.Rhs[0].(*ast.CompositeLit)
+					if !ok {
+						bad("case %d: spliceInsertTimes is not a literal", k)
+						continue
+					}
+					offs := []int64{}
+					for _, el := range cl.Elts {
+						b, ok := el.(*ast.BinaryExpr)
+						id, _ := func() (*ast.Ident, bool) {
+							if !ok {
+								return nil, false
+							}
+							i, o := b.X.(*ast.Ident)
+							return i, o
+						}()
+						if !ok || b.Op != token.ADD || id == nil || id.Name != "minuteStart" {
+							bad("case %d: element is not minuteStart + N*timescale", k)
+							continue
+						}
+						v, ok2 := timesTimescale(b.Y)
+						if !ok2 {
+							bad("case %d: element is not minuteStart + N*timescale", k)
+							continue
+						}
+						offs = append(offs, v)
+					}
+					sc.Offsets[int(k)] = offs
+				}
+			}
+		case *ast.KeyValueExpr:
+			key, _ := x.Key.(*ast.Ident)
+			if key != nil && key.Name == "PtsTime" {
+				// uint64(spliceTime*90000/timescale) % (1 << 33)
+				ast.Inspect(x.Value, func(m ast.Node) bool {
+					if b, ok := m.(*ast.BinaryExpr); ok {
+						if b.Op == token.SHL {
+							if v, ok := intLit(b.Y); ok {
+								sc.PtsBits = v
+							}
+						}
+						if b.Op == token.MUL {
+							if v, ok := intLit(b.Y); ok {
+								sc.Clock = v
+							}
+						}
+					}
+					return true
+				})
+			}
+		}
+		return true
+	})
+	return sc
+}
+
+func (sc srcConsts) term(id int) string {
+	l := func(k int) string { return lib.Zlist64(sc.Offsets[k]) }
+	ad := func(k int) int64 {
+		if v, ok := sc.AdDur[k]; ok {
+			return v
+		}
+		return sc.AdDurDef
+	}
+	return fmt.Sprintf("CConst %d %s %s %s %d %d %d %d %d %d %d", id, l(1), l(2), l(3), ad(1), ad(2), ad(3), sc.Lead, sc.Minute, sc.Clock, sc.PtsBits)
+}
+
 // ---------------------------------------------------------------- L1: served segments
 
 type assetInfo struct {
@@ -518,7 +713,7 @@ func oracleSingle(c *lib.Ctx, id string, in directIn, o obs) {
 		sigma := want[0]
 		minuteStart := sigma - (sigma % (60 * ts))
 		if in.SegStart < minuteStart {
-			c.Fail(id, "scte35-event-lost-minute-boundary", fmt.Sprintf("segment (%d,%d]/%d contains the announce instant of splice %d s but starts in the previous minute: no event", in.SegStart, in.SegEnd, ts, sigma/ts), in)
+			c.Fail(id, "missing-event:minute-boundary", fmt.Sprintf("segment (%d,%d]/%d contains the announce instant of splice %d s but starts in the previous minute: no event", in.SegStart, in.SegEnd, ts, sigma/ts), in)
 		} else {
 			c.Fail(id, "event-missing", fmt.Sprintf("segment (%d,%d]/%d contains the announce instant of splice %d s: no event", in.SegStart, in.SegEnd, ts, sigma/ts), in)
 		}
@@ -589,7 +784,7 @@ func oracleWindow(c *lib.Ctx, baseID string, w windowIn, segs []segObs) {
 			cs := carriers[sigma]
 			switch {
 			case len(cs) == 0 && h.Start < 60*m*ts:
-				c.Fail(id, "scte35-event-lost-minute-boundary", fmt.Sprintf("%s N=%d: splice at %d s (minute %d + %d s) is never announced: segment %d (%d,%d]/%d contains the announce instant but starts in the previous minute", w.Asset, n, sigma/ts, m, off, h.Nr, h.Start, h.Start+h.Dur, ts), in(h.Nr, sigma, off))
+				c.Fail(id, "missing-event:minute-boundary", fmt.Sprintf("%s N=%d: splice at %d s (minute %d + %d s) is never announced: segment %d (%d,%d]/%d contains the announce instant but starts in the previous minute", w.Asset, n, sigma/ts, m, off, h.Nr, h.Start, h.Start+h.Dur, ts), in(h.Nr, sigma, off))
 			case len(cs) == 0:
 				c.Fail(id, "event-missing", fmt.Sprintf("%s N=%d: splice at %d s is never announced (segment %d should carry it)", w.Asset, n, sigma/ts, h.Nr), in(h.Nr, sigma, off))
 			case len(cs) > 1:
@@ -603,8 +798,21 @@ func runC13(c *lib.Ctx) error {
 	if c.Replay != "" {
 		return replayC13(c)
 	}
+	debug.SetGCPercent(400)
 	rng := rand.New(rand.NewSource(c.Seed))
 	r := &runner{c: c, distinct: map[string]bool{}}
+
+	// ------------------------------------------------------------ 0. the constants in the source
+	{
+		sc := readSrcConsts()
+		idn, id := r.id()
+		c.Res.Inputs[id] = map[string]any{"kind": "consts", "file": filepath.Join(repoRoot(), "pkg/scte35/scte35.go"), "read": sc}
+		c.Count("source-constants")
+		for _, p := range sc.Problems {
+			c.Res.Notes = append(c.Res.Notes, "constants of CreateEmsgAhead: "+p)
+		}
+		r.terms = append(r.terms, sc.term(idn))
+	}
 	scale := 1
 	if c.Thorough() {
 		scale = 10
@@ -1024,6 +1232,9 @@ func replayC13(c *lib.Ctx) error {
 				}
 			}
 		}
+	case "consts":
+		sc := readSrcConsts()
+		fmt.Printf("replay C13: constants read from %s: %+v\n", filepath.Join(repoRoot(), "pkg/scte35/scte35.go"), sc)
 	case "mpd", "reject":
 		ls, err := lib.NewLivesim(lib.TestVodRoot, nil)
 		if err != nil {
